@@ -103,8 +103,21 @@ type Oracle interface {
 	Finish(s *Sim) (*core.Violation, bool)
 }
 
+// TxObserver observes the in-progress block state of the observer replica immediately before
+// and after every DeliverTx call (state is the proposal overlay of the block being executed).
+type TxObserver interface {
+	BlockStart(s *Sim, r *Replica, height int64)
+	BeforeTx(s *Sim, r *Replica, idx int, raw []byte, state mkvs.KeyValueTree)
+	AfterTx(s *Sim, r *Replica, idx int, raw []byte, state mkvs.KeyValueTree, res abcitypes.ResponseDeliverTx)
+}
+
+// needsObserver lists the properties whose oracles observe per-transaction state.
+var needsObserver = map[string]bool{"C08": true, "C09": true, "C15": true}
+
 // Sim is one running simulation.
 type Sim struct {
+	TxObs        []TxObserver
+	obsIdx       int // DeliverTx index within the current block on the observer replica
 	Prop         string
 	K            ChainKnobs
 	W            *World
@@ -293,7 +306,11 @@ func (e Engine) Execute(sc *core.Scenario, st *core.Stats) (*core.Violation, boo
 			}
 		}
 	}()
-	for i, rc := range k.Replicas {
+	reps := append([]ReplicaConfig{}, k.Replicas...)
+	if needsObserver[e.Prop] {
+		reps = append(reps, ReplicaConfig{Backend: "badger", Observer: true})
+	}
+	for i, rc := range reps {
 		rc.MemoryOnly = !k.Disk
 		if rc.MemoryOnly {
 			rc.PruneKeep = 0 // badger's Sync (called by the pruner) is not available in memory-only mode
@@ -380,6 +397,9 @@ func (s *Sim) panicViolation(where string, r *Replica, pv interface{}, stack str
 	if os.Getenv("VERIF_DEBUG") != "" {
 		fmt.Fprintf(os.Stderr, "PANIC in %s replica %d height %d: %v\n%s\n", where, r.Idx, s.Height+1, pv, stack)
 	}
+	if s.Prop == "C05" && strings.Contains(fmt.Sprint(pv), "supplementarysanity") {
+		return cViol("C05", "in-tree-sanity-check-failed", "in-tree-sanity-check-failed", fmt.Sprintf("replica %d: the in-tree supplementary sanity checker (second opinion) failed at height %d: %v", r.Idx, s.Height+1, pv))
+	}
 	if s.Prop != "C10" && s.Prop != "C16" {
 		s.Aborted = "panic-in-" + where
 		return nil
@@ -393,6 +413,39 @@ func (s *Sim) panicViolation(where string, r *Replica, pv interface{}, stack str
 
 // installInterposer wires the interleaving callbacks of a replica.
 func (s *Sim) installInterposer(r *Replica) {
+	if r.Cfg.Observer {
+		withState := func(f func(state mkvs.KeyValueTree)) {
+			ctx := r.srv.State().NewContext(cmtapi.ContextDeliverTx)
+			defer ctx.Close()
+			f(ctx.State())
+		}
+		r.inter.before = func(call string) {
+			if call == "DeliverTx" {
+				withState(func(st mkvs.KeyValueTree) {
+					for _, o := range s.TxObs {
+						o.BeforeTx(s, r, s.obsIdx, r.inter.lastTx, st)
+					}
+				})
+			}
+		}
+		r.inter.after = func(call string) {
+			switch call {
+			case "BeginBlock":
+				s.obsIdx = 0
+				for _, o := range s.TxObs {
+					o.BlockStart(s, r, r.State.LastBlockHeight+1)
+				}
+			case "DeliverTx":
+				withState(func(st mkvs.KeyValueTree) {
+					for _, o := range s.TxObs {
+						o.AfterTx(s, r, s.obsIdx, r.inter.lastTx, st, r.inter.lastDeliver)
+					}
+				})
+				s.obsIdx++
+			}
+		}
+		return
+	}
 	r.inter.after = func(call string) {
 		s.callCount[r.Idx]++
 		c := s.callCount[r.Idx]
@@ -548,7 +601,7 @@ func (s *Sim) restart(idx, opIdx int) *core.Violation {
 func (s *Sim) eligibleProposers() []*Replica {
 	var out []*Replica
 	for _, r := range s.Reps {
-		if !r.Up || r.State.LastBlockHeight != s.Height {
+		if !r.Up || r.State.LastBlockHeight != s.Height || r.Cfg.Observer {
 			continue
 		}
 		pk := r.Node.Identity.ConsensusSigner.Public()
@@ -688,8 +741,8 @@ func (s *Sim) produceBlock(opIdx int, b *BlockOp) *core.Violation {
 			return nil
 		}
 		for _, r := range s.Reps {
-			if r == p || !r.Up || r.State.LastBlockHeight != s.Height || fr.Processors&(1<<uint(r.Idx)) == 0 {
-				continue
+			if r == p || !r.Up || r.Cfg.Observer || r.State.LastBlockHeight != s.Height || fr.Processors&(1<<uint(r.Idx)) == 0 {
+				continue // (the observer never processes proposals: it must see one DeliverTx per transaction)
 			}
 			cp, _ := CopyBlock(blk)
 			var ok bool
@@ -788,6 +841,9 @@ func (s *Sim) produceBlock(opIdx int, b *BlockOp) *core.Violation {
 			if path == 2 || path == 3 {
 				path = 0
 			}
+		}
+		if r.Cfg.Observer {
+			path = 1
 		}
 		if !r.Up {
 			continue
